@@ -28,7 +28,7 @@ m = {"version": 1, "setup_cmd": "./setup.sh",
      "hooks": {"guard": "PYMOODE_VERIF", "enable": "none needed: instrumentation is applied from the harness by wrapping numpy.random attributes and passing proxy objects", "baseline_off_cmd": "cd /repo && /venv/bin/python -m pytest -ra -q -p no:cacheprovider --timeout=900 --continue-on-collection-errors", "source_commits": [], "add_only": True},
      "engines": [{"name": "lean-proof+correspondence", "path": "lean/ harness/", "serves_properties": sorted(claimed), "kind_free_text": "Lean 4 theorems (lean/PymoodeProofs) about an executable model (lean/PymoodeModel), correspondence harness in Python (harness/)"}],
      "checks": checks,
-     "notes": "fix: commits in /repo: 4164f17 (C09), 6497982 (C12), 97940a9 (C14), 0b0dc59 (C15); see known_findings.json",
+     "notes": "fix: commits in /repo: 4164f17 (C09), 6497982 (C12), 97940a9 (C14), 0b0dc59 + 0962223 (C15), fc29a84 (C13); known findings F2-F4 (C13) and F9 (C14) in known_findings.json; seeded changes and what catches them: DESIGN.md section 11",
      "not_applicable": [{"property_id": p['id'], "reason": NA.get(p['id'], "check under construction in this round (model and correspondence not yet registered); see DESIGN.md §12 build order")} for p in props if p['id'] not in claimed]}
 json.dump(m, open('/verif/MANIFEST.json', 'w'), indent=1)
 print("claimed", sorted(claimed))
